@@ -284,6 +284,22 @@ META = {
         level_text="Chunk-by-chunk comparison of real modulators and everything linked to them against an independent model over ~5x10^4 (quick) / 10^7 (thorough) random scenes; exploration.",
         level_note="Trusts the harness model of the documented modulator/parameter behaviour and the probe Effect/Modulator implementations of the public traits.",
     ),
+    "C18": dict(
+        level="exploration",
+        technique="runtime monitoring: independent WAV encoder + strict RIFF reader as oracle for StaticSoundData::from_cursor; file-frame follower (every streamed output frame must be the next file frame, the loop start, or the landing frame of the oldest pending seek) on the real Symphonia decoder and decoder thread kept ahead through the dec.* hooks; corruption/truncation outcomes judged against the independent reader; AddressSanitizer build in the thorough tier",
+        design_ref="DESIGN.md §3 C18",
+        rule=("(F) WAV files from the harness encoder (u8/i16/i24/i32/f32/f64, 1/2/3/6 channels, 9 rates incl. 1 and 12345 Hz, lengths 0/1/odd/1151..1154/up to 20000, plain or WAVE_FORMAT_EXTENSIBLE headers, fact/unknown/LIST chunks around the data, odd chunk sizes): from_cursor must give the encoded rate, frame count and every sample (exact for f32, f32-rounded for f64, <= 1 LSB for integers), mono in both channels, UnsupportedChannelConfiguration for > 2 channels; StreamingSoundData::num_frames must agree. "
+              "(S) index-coded WAVs (3000..71500 frames, every frame unique and non-zero) streamed at rate 1 with slices, start positions, loop regions and up to 3 seek_to commands (incl. targets next to the decoder's current packet): the output must follow the loaded frames as described, every seek issued while the decoder thread lives must land on the frame a static sound lands on, the sound must end after the last frame of the file/slice and report no error; the shipped assets (ogg, wav) likewise, from 0 strictly. "
+              "(X) truncation at a random byte, one flipped bit in the header region, or one byte set to 00/7F/80/FF anywhere, on files of 0..600 frames: from_cursor must return an error value or frames that are a prefix (same rate) of what the independent reader derives from the same bytes when the header is still self-consistent (otherwise counted as not judged); streaming the same bytes must be refused or end, playing only frames that loading gives; no panic on any thread, <= 5 s CPU. "
+              "A case is distinct when its (kind, format, channels, header variant, length class / slice, loop, seeks, start / asset) key is new."),
+        domain="PCM and IEEE-float WAV only for fidelity (no independent Vorbis/FLAC/MP3 decoder exists offline: compressed assets get the equality half only); seek targets at (k+0.25)/rate, inside the loop region when one is set, at least one callback apart; device rate = file rate, playback rate 1",
+        assumptions=["the decoder is kept ahead of playback (the harness waits for two dec.wait hook hits, an end or an error before every callback); starvation is C10's subject",
+                     "integer sample scaling conventions: (s-128)/128, s/2^15, s/2^23, s/2^31"],
+        quick=[dict(engine="native-rel", shards=64, budget=40, parallel=64)],
+        thorough=[dict(engine="native-rel", shards=64, budget=900, parallel=64), dict(engine="asan", shards=32, budget=300, parallel=32)],
+        level_text="Oracle-judged decoding of ~10^4 (quick) / 10^6 (thorough) generated, corrupted and shipped files through the real Symphonia glue and decoder thread; exploration.",
+        level_note="Trusts the harness WAV encoder/reader (they are checked against each other on every generated file) and the dec.* hook observations used to keep the decoder ahead.",
+    ),
     "C19": dict(
         level="exploration",
         technique="runtime monitoring: exhaustive f32 sweeps + dense boundary-biased sampling of the public conversion functions against independent f64 oracles",
